@@ -16,6 +16,7 @@
 (*   N  solid                      VolPer 3  MassPer 3                     *)
 (*   M  solid   (heavy)            VolPer 5  MassPer 5                     *)
 (*   E  enzyme                     VolPer 1  MassPer 1/10                  *)
+(*   F  enzyme (another lot of E)  VolPer 1  MassPer 1/4                   *)
 (*                                                                         *)
 (* Solids take the configured default density, hence VolPer = MassPer.     *)
 (* These are the DEFINITIONS every observer of the library has to agree    *)
@@ -25,9 +26,10 @@ EXTENDS Rat, FiniteSets
 
 CONSTANT Subst          \* the substances of this model instance, a subset of DOMAIN Kind
 
-Kind    == [W |-> "liquid", D |-> "liquid", N |-> "solid", M |-> "solid", E |-> "enzyme"]
-VolPer  == [W |-> I(1), D |-> I(2), N |-> I(3), M |-> I(5), E |-> I(1)]
-MassPer == [W |-> I(1), D |-> I(4), N |-> I(3), M |-> I(5), E |-> R(1, 10)]
+\* F is a second LOT of the enzyme E: the harness gives it E's name and a different specific activity
+Kind    == [W |-> "liquid", D |-> "liquid", N |-> "solid", M |-> "solid", E |-> "enzyme", F |-> "enzyme"]
+VolPer  == [W |-> I(1), D |-> I(2), N |-> I(3), M |-> I(5), E |-> I(1), F |-> I(1)]
+MassPer == [W |-> I(1), D |-> I(4), N |-> I(3), M |-> I(5), E |-> R(1, 10), F |-> R(1, 4)]
 
 IsEnzyme(s) == Kind[s] = "enzyme"
 IsLiquid(s) == Kind[s] = "liquid"
